@@ -21,7 +21,7 @@ ASSUMPTIONS = [
     "genemetrics with inferred sex (is_sample_female=None) is left to C15",
     "genes whose bins all have zero weight are not generated when a depth column is present (weight-averaged depth undefined)",
 ]
-BUDGET_S = {"quick": 200, "thorough": 1200}
+BUDGET_S = {"quick": 600, "thorough": 2400}
 IGN = ["Antitarget", "-", ".", "CGH", "Background"]
 
 
